@@ -44,6 +44,7 @@ type Exec struct {
 	crashStart   int
 	badBlocks    map[int]bool
 	faulting     bool
+	obsLedgerH   *int64 // ledger height to use for the frozen split when observing another node
 }
 
 func errEnum(err error) string {
@@ -353,6 +354,38 @@ func (e *Exec) observe(n *chainlib.Node) string {
 		}
 		sb.WriteString(k + ":" + e.kvStr(n, k))
 	}
+	// range scan through the live reader (XModel.Select): the live keys in order
+	sb.WriteString(" sel=")
+	if it, err := n.S.CreateXMReader().Select(chainlib.KVBucket, []byte("k"), []byte("l")); err == nil {
+		first := true
+		for it.Next() {
+			if !first {
+				sb.WriteString(",")
+			}
+			first = false
+			sb.WriteString(string(it.Key()))
+		}
+		it.Close()
+	} else {
+		sb.WriteString("err")
+	}
+	// frozen part of every balance (GetBalanceDetail)
+	sb.WriteString(" fz=")
+	for i, nm := range names {
+		if i > 0 {
+			sb.WriteString(",")
+		}
+		d, err := n.S.GetBalanceDetail(e.w.AddrOf[nm])
+		fz := "err"
+		if err == nil {
+			for _, x := range d {
+				if x.IsFrozen {
+					fz = x.Balance
+				}
+			}
+		}
+		sb.WriteString(nm + ":" + fz)
+	}
 	// ZU table (live keys) raw
 	sb.WriteString(" ZU=")
 	zu := n.ScanTable(pb.ExtUtxoTablePrefix + chainlib.KVBucket + "/")
@@ -454,6 +487,32 @@ func (e *Exec) specObserve(s *Spec, tip int, irrev int64) string {
 		default:
 			fmt.Fprintf(&sb, "%s:%s@%d.%d", k, kv.Val, kv.Tx, kv.Off)
 		}
+	}
+	sb.WriteString(" sel=")
+	var lk []string
+	for k, kv := range s.KV {
+		if !kv.Del {
+			lk = append(lk, k)
+		}
+	}
+	sort.Strings(lk)
+	sb.WriteString(strings.Join(lk, ","))
+	sb.WriteString(" fz=")
+	lh := e.w.Main.L.GetMeta().TrunkHeight
+	if e.obsLedgerH != nil {
+		lh = *e.obsLedgerH
+	}
+	for i, nm := range names {
+		if i > 0 {
+			sb.WriteString(",")
+		}
+		f := big.NewInt(0)
+		for _, u := range s.U {
+			if u.Addr == nm && (u.Frozen > lh || u.Frozen == -1) {
+				f.Add(f, u.Amt)
+			}
+		}
+		sb.WriteString(nm + ":" + f.String())
 	}
 	sb.WriteString(" ZU=")
 	var zs []string
@@ -1098,6 +1157,8 @@ func (e *Exec) replicaCheck() string {
 	a, b := e.observe(w.Main), e.observe(r)
 	// the irreversible height is history dependent by design (max over blocks ever applied): compare the rest
 	a, b = stripField(a, "irrev"), stripField(b, "irrev")
+	// the frozen / unfrozen split of a balance is taken against the LEDGER's trunk height, which differs on the replica
+	a, b = stripField(a, "fz"), stripField(b, "fz")
 	if a != b {
 		e.violate("walked-differs-from-fresh-replay", fmt.Sprintf("node at block %d {%s} vs fresh node that played genesis..%d {%s}", tip, a, tip, b), "")
 		return "differ"
